@@ -5,7 +5,7 @@
 //! builder for concrete `(N, U)` and its upper-bits vector is then *replaced*
 //! (through the public `map_high_bits`) by fully symbolic words constrained
 //! only by the representation invariant: exactly `N` ones among the first
-//! `N + (U >> l) + 1` bits. With `U < 2N` there are no lower bits (`l = 0`),
+//! `N + (U >> l) + 1` bits, the last of which is a zero. With `U < 2N` there are no lower bits (`l = 0`),
 //! so every such vector is the representation of exactly one monotone
 //! sequence bounded by `U`: `x_i = select(i) - i`. All clustered sequences
 //! (an all-zero word between two consecutive elements, elements starting in a
@@ -16,8 +16,8 @@ use sux::bits::BitVec;
 use sux::dict::{EliasFano, EliasFanoBuilder};
 use sux::prelude::*;
 
-pub const N: usize = 66;
-pub const U: usize = 100;
+pub const N: usize = 44;
+pub const U: usize = 86;
 pub const HW: usize = 3;
 pub const HLEN: usize = N + U + 1;
 
@@ -28,6 +28,10 @@ pub fn any_state() -> (EfS, [usize; HW]) {
     let high: [usize; HW] = kani::any();
     kani::assume(high[HW - 1] >> (HLEN - 64 * (HW - 1)) == 0);
     kani::assume(ones_before(&high, HLEN) == N);
+    // every value is at most U: the one of rank i sits at position x_i + i <= U + N - 1, so the last
+    // bit of the vector is always a zero (found missing by a non-genuine counter-example: an element
+    // U + 1 in the first version of this invariant)
+    kani::assume((high[(HLEN - 1) / 64] >> ((HLEN - 1) % 64)) & 1 == 0);
     let mut b = EliasFanoBuilder::new(N, U);
     let mut k = 0;
     while k < N {
